@@ -56,6 +56,11 @@ WITH_SHAPES = [
     "with a0 as x, a1 as y:\n    s0",
     "with a0, a1:\n    s0",
     "async with a0 as x:\n    s0",
+    # binding the `as` target can itself fail (target operand raises): the manager just entered must still be exited
+    "with a0 as a1[a2]:\n    s0",
+    "with a0 as a1.attr:\n    s0",
+    "with a0 as x, a1 as a2[a3]:\n    s0",
+    "async with a0 as a1[a2]:\n    s0",
 ]
 FUNC_SHAPES = ["return a0", "return", "break", "continue"]
 
@@ -75,7 +80,7 @@ def run(ctx):
     for src in FLOW_SHAPES:
         compare_shape(ctx, program, policy, "R02.1", src, "exec", result="flow", ref_opts=ropts)
 
-    ctx.rule("R02.3", "with / async with: managers entered item by item, exited in reverse on every exit, per-manager suppression", floor=5)
+    ctx.rule("R02.3", "with / async with: managers entered item by item, exited in reverse on every exit, per-manager suppression", floor=9)
     wpol = HandlerPolicy(program, raise_at_eval=True, raise_at_call=True)
     wopts = {"raise_at_eval": True, "raise_at_call": True}
     for src in WITH_SHAPES:
